@@ -61,6 +61,14 @@ Theorem C14_requests_confined : forall fuel (T : tree) exts main o s,
   forall n r, In (EvReq n r) (trace s) -> name_ok n.
 Proof. intros fuel T exts main o s HT Hm E. exact (run_main_reqs T exts HT fuel main o s Hm E). Qed.
 
+(* The code an import of the name n is answered with is the source stored in the evaluation's OWN module tree under
+   exactly the name n (byte for byte) and one of the configured extensions: no entry of another tree (another import
+   root of the same process) and no entry whose name merely becomes equal to n under some normalisation (letter case,
+   Unicode forms, path cleaning) can answer for n. *)
+Theorem C14_source_exact_name : forall (T : tree) exts n ext src,
+  find_source T exts n = Some (ext, src) -> In ext exts /\ In (n, ext, src) T.
+Proof. exact find_source_exact. Qed.
+
 (* ------------------------------------------------------------------ once *)
 
 (* Every start of a module body seen in the trace ended by completing or by failing, and at most ONE start of
@@ -168,6 +176,14 @@ Example C14_file_example :
   local_file root_ex p_pkg_a ext_risor
   = [47;115;114;118;47;109;111;100;115;47;112;107;103;47;97;46;114;105;115;111;114]%N.   (* /srv/mods/pkg/a.risor *)
 Proof. vm_compute. reflexivity. Qed.
+(* "quota/Limits" and "quota/limits" in one tree: each name finds its own source *)
+Definition p_Limits : bstr := [113;117;111;116;97;47;76;105;109;105;116;115]%N.
+Definition p_limits : bstr := [113;117;111;116;97;47;108;105;109;105;116;115]%N.
+Example C14_case_twins_distinct :
+  let T := [(p_Limits, ext_risor, MBody [AFail]); (p_limits, ext_risor, MBad)] in
+  find_source T default_exts p_Limits = Some (ext_risor, MBody [AFail]) /\
+  find_source T default_exts p_limits = Some (ext_risor, MBad).
+Proof. vm_compute. split; reflexivity. Qed.
 Example C14_root_hyp_satisfiable : @base_ok ByteAlphabet root_ex /\ Forall bnoslash default_exts.
 Proof.
   split; [|exact default_exts_noslash].
